@@ -307,6 +307,9 @@ CS101_FileServer_handleAsdu(void* parameter, IMasterConnection connection,  CS10
             {
                 FileReady fileReady = (FileReady) CS101_ASDU_getElementEx(asdu, (InformationObject) ioBuf, 0);
 
+                if (fileReady == NULL)
+                    break;
+
                 int ioa = InformationObject_getObjectAddress((InformationObject) fileReady);
 
                 self->fileReceiver = NULL;
@@ -370,6 +373,9 @@ CS101_FileServer_handleAsdu(void* parameter, IMasterConnection connection,  CS10
             {
                 SectionReady sectionReady = (SectionReady) CS101_ASDU_getElementEx(asdu, (InformationObject) ioBuf, 0);
 
+                if (sectionReady == NULL)
+                    break;
+
                 self->currentSectionNumber = SectionReady_getNameOfSection(sectionReady);
                 self->currentSectionOffset = 0;
                 self->sectionChecksum = 0;
@@ -389,6 +395,9 @@ CS101_FileServer_handleAsdu(void* parameter, IMasterConnection connection,  CS10
             if (self->state == RECEIVE_SECTION)
             {
                 FileSegment segment = (FileSegment) CS101_ASDU_getElementEx(asdu, (InformationObject) ioBuf, 0);
+
+                if (segment == NULL)
+                    break;
 
                 uint8_t nos = FileSegment_getNameOfSection(segment);
                 uint8_t los = FileSegment_getLengthOfSegment(segment);
@@ -416,6 +425,9 @@ CS101_FileServer_handleAsdu(void* parameter, IMasterConnection connection,  CS10
                 DEBUG_PRINT ("Received F_LS_NA_1 (last segment/section)\n");
 
                 FileLastSegmentOrSection lastSection = (FileLastSegmentOrSection) CS101_ASDU_getElementEx(asdu, (InformationObject) ioBuf, 0);
+
+                if (lastSection == NULL)
+                    break;
 
                 uint8_t lsq = FileLastSegmentOrSection_getLSQ(lastSection);
 
@@ -508,6 +520,9 @@ CS101_FileServer_handleAsdu(void* parameter, IMasterConnection connection,  CS10
             if (self->state != UNSELECTED_IDLE)
             {
                 FileACK ack = (FileACK) CS101_ASDU_getElementEx(asdu, (InformationObject) ioBuf, 0);
+
+                if (ack == NULL)
+                    break;
 
                 uint8_t afq = FileACK_getAFQ(ack);
 
@@ -637,6 +652,9 @@ CS101_FileServer_handleAsdu(void* parameter, IMasterConnection connection,  CS10
             if (CS101_ASDU_getCOT(asdu) == CS101_COT_FILE_TRANSFER)
             {
                 FileCallOrSelect sc = (FileCallOrSelect) CS101_ASDU_getElementEx(asdu, (InformationObject) ioBuf, 0);
+
+                if (sc == NULL)
+                    break;
 
                 uint8_t scq = FileCallOrSelect_getSCQ(sc);
                 int ioa = InformationObject_getObjectAddress((InformationObject) sc);
